@@ -41,7 +41,7 @@ def slicer(quick_n):
 
 
 PLANS = {}
-HOOK_COMMITS = []
+HOOK_COMMITS = ["537babc"]
 
 # ------------------------------------------------------------------ C02
 PLANS["C02"] = dict(
@@ -211,5 +211,58 @@ PLANS["C08"] = dict(
              validate=dict(module="Trace_TrustPolicy", cfg=trace_cfg(consts=['Mode = "select"']))),
         dict(name="blob", gen=c08_gen("blob"), drive=dict(driver="policy-select"),
              validate=dict(module="Trace_TrustPolicy", cfg=trace_cfg(consts=['Mode = "select"']))),
+    ],
+)
+
+# ------------------------------------------------------------------ C14
+def c14_cfg(config, sets, gets, chunks, mutant="none", emit=False, maxhist=0, spec="MCSpec", props=("VisibleImmutable", "NeverUnlinked"), invs=("ReadSafe", "VisibleComplete", "Fresh", "TempNeverEntry", "Inv_Emit"), view=True):
+    ls = ["CONSTANTS", " Writers <- MCWriters", " Readers <- MCReaders", " URLs <- MCURLs", " WUrl <- MCWUrl",
+          f" Sets = {sets}", f" Gets = {gets}", f" Chunks = {chunks}", f' Mutant = "{mutant}"', f" Emit = {'TRUE' if emit else 'FALSE'}",
+          f' Config = "{config}"', f" MaxHist = {maxhist}", f"SPECIFICATION {spec}"]
+    ls += [f"INVARIANT {i}" for i in invs]
+    ls += [f"PROPERTY {p}" for p in props]
+    if view:
+        ls.append("VIEW MCView")
+    ls.append("CHECK_DEADLOCK FALSE")
+    return cfg_lines(*ls)
+
+
+C14_TRACE_CFG = cfg_lines("CONSTANTS", " Writers <- TWriters", " Readers <- TReaders", " URLs <- TURLs", " WUrl <- TWUrl", " Sets = 2", " Gets = 2",
+                          " Chunks = 1", ' Mutant = "none"', ' TraceFile = "trace.ndjson"', "SPECIFICATION TSpec",
+                          "INVARIANT ReadSafe", "INVARIANT VisibleComplete", "INVARIANT Fresh", "INVARIANT TempNeverEntry",
+                          "POSTCONDITION Consumed", "CHECK_DEADLOCK FALSE")
+
+PLANS["C14"] = dict(
+    level_text="TLC explores every interleaving of the file-system steps of concurrent Set calls (create temp, write chunks, close, rename, return), "
+               "crashes at every point and chunk-wise reads in bounded instances of CRLCache.tla and checks ReadSafe, VisibleComplete, "
+               "VisibleImmutable, NeverUnlinked, Fresh, TempNeverEntry (and termination under fairness); deliberately wrong designs (in-place "
+               "write, unlink-then-rename) must be rejected. TLC-simulated schedules are then replayed against the real FileCache: writers are "
+               "goroutines or separate processes held at the verif hook points of internal/file.WriteFile, crashed writers are never released "
+               "or SIGKILL themselves; after every step the real directory is projected and TLC validates that each step is the spec action "
+               "leading to exactly that projection.",
+    level_note="Trusted: TLC, the POSIX semantics of rename/open assumed by the model (inode bound at open). Reads are executed atomically at "
+               "the schedule position of ROpen (no hook inside Get); read/write races inside Get are exercised only by the free-running stress phase.",
+    rule="model checking: all reachable states of three bounded instances; replay: TLC -simulate schedules (writers x readers x crashes); "
+         "every schedule is a distinct interleaving; all are non-trivial (concurrent steps or crashes)",
+    exhaustive=False,
+    phases=[
+        dict(name="mc-w3r1", mc=dict(module="MC_CRLCache_C14", cfg=c14_cfg("w3r1", 1, 1, 2))),
+        dict(name="mc-w3r2", mc=dict(module="MC_CRLCache_C14", cfg=c14_cfg("w3r2", 1, 1, 1))),
+        dict(name="mc-w2s2", mc=dict(module="MC_CRLCache_C14", cfg=c14_cfg("w2s2", 2, 1, 1)), tier="thorough"),
+        dict(name="mc-live", mc=dict(module="MC_CRLCache_C14", cfg=c14_cfg("w2r1", 2, 1, 2, spec="MCFairSpec", props=("Terminates",)))),
+        dict(name="mutant-inplace", mc=dict(module="MC_CRLCache_C14", cfg=c14_cfg("w2r1", 1, 1, 2, mutant="inplace", invs=("ReadSafe",), props=()), expect_violation="ReadSafe")),
+        dict(name="mutant-unlink", mc=dict(module="MC_CRLCache_C14", cfg=c14_cfg("w2r1", 1, 1, 2, mutant="unlinkFirst", invs=("Fresh",), props=()), expect_violation="Fresh")),
+        dict(name="schedules",
+             gen=dict(module="MC_CRLCache_C14", cfg=c14_cfg("w3r2", 2, 2, 1, emit=True, maxhist=60, props=(), view=False), workers=1,
+                      extra=lambda tier, seed: ["-simulate", "num=" + ("3000" if tier == "thorough" else "400"), "-depth", "70", "-seed", str(seed)],
+                      select=take_all),
+             drive=dict(driver="crl-sched"),
+             validate=dict(module="Trace_CRLCache", cfg=C14_TRACE_CFG)),
+        dict(name="free-running",
+             drive=dict(driver="crl-stress"),
+             validate=dict(module="Trace_CRLCacheFree", searching=True, recheck=False, jvm="-Dtlc2.tool.queue.IStateQueue=StateDeque",
+                           cfg=cfg_lines("CONSTANTS", " Writers <- TWriters", " Readers <- TReaders", " URLs <- TURLs", " WUrl <- TWUrl", " Sets = 3",
+                                         " Gets = 8", " Chunks = 1", ' Mutant = "none"', ' TraceFile = "trace.ndjson"', "SPECIFICATION TSpec",
+                                         "INVARIANT NotAccepted", "CONSTRAINT HighWater", "POSTCONDITION Report", "CHECK_DEADLOCK FALSE"))),
     ],
 )
